@@ -371,10 +371,84 @@ def check(ctx):
         if len(impl) < len(vals):
             pass
     float_probe(ctx)
+    big_frame_cases(ctx)
+    huge_integer_cases(ctx)
+
+
+def big_frame_cases(ctx):
+    """detector-size frames (more than 2**16 pixels) in either memory order, also as transposed views: the memory layout of an array is
+    not part of its value. Integer-valued pixels, so the batch statistic computed by numpy in float64 is exact."""
+    A = acclib.accmod()
+    rng = ctx.rng
+    for kind, cls in (('mean', A.Mean), ('var', A.Variance), ('min', A.Minimum)):
+        layout = rng.choice(['fortran-first', 'transposed-views', 'c-then-fortran'])
+        shape = (260, 256)
+        frames = [np.array([[float((i * 7 + j * 3 + t * 11) % 23 - 9) for j in range(shape[1])] for i in range(shape[0])]) for t in range(4)]
+        fed = []
+        for t, fr in enumerate(frames):
+            if layout == 'fortran-first':
+                fed.append(np.asfortranarray(fr) if t == 0 else fr)
+            elif layout == 'transposed-views':
+                fed.append(np.ascontiguousarray(fr.T).T)       # same values, F-ordered view
+            else:
+                fed.append(fr if t == 0 else np.asfortranarray(fr))
+        case = dict(kind=kind, big_frames=list(shape), layout=layout, n=len(frames))
+        ctx.case(('big-frame', kind, layout), True, sample=case)
+        ctx.count('big_frames')
+        acc = cls()
+        try:
+            for fr in fed:
+                acc.accumulate(fr)
+            got = np.asarray(acc.value)
+        except Exception as e:  # noqa
+            ctx.fail('push-raises:%s:!%s' % (kind, type(e).__name__), 'accumulating %s frames raised %r' % (layout, e), case)
+            continue
+        stack = np.stack(frames)
+        want = stack.mean(axis=0) if kind == 'mean' else (stack.var(axis=0, ddof=1) if kind == 'var' else stack.min(axis=0))
+        if acc.n != len(frames) or got.shape != want.shape or not np.allclose(got, want, rtol=1e-12, atol=1e-12):
+            bad = int(np.sum(~np.isclose(got, want, rtol=1e-12, atol=1e-12))) if got.shape == want.shape else -1
+            ctx.fail('batch-mismatch:%s:value' % kind, '%s over %d frames of %s pixels (%s): %d pixels differ from the batch statistic (n=%s)' % (
+                kind, len(frames), shape, layout, bad, acc.n), case)
+
+
+def huge_integer_cases(ctx):
+    """finite reals of any magnitude: Python integers with more digits than the interpreter will convert to a string (4300 by default).
+    Counting and comparing need no string; nothing about these numbers is ever printed here either."""
+    A = acclib.accmod()
+    rng = ctx.rng
+    base = 10 ** 5000
+    vals = [base + rng.randint(-50, 50) for _ in range(6)]
+    for kind, cls in (('counter', A.Counter), ('min', A.Minimum), ('max', A.Maximum)):
+        case = dict(kind=kind, values='six Python integers near 10**5000', family='hugeint')
+        ctx.case(('hugeint', kind), True, sample=case)
+        ctx.count('huge_integers')
+        acc = cls()
+        try:
+            for v in vals:
+                acc.accumulate(v)
+            n = acc.n
+            got = acc.value
+        except Exception as e:  # noqa
+            ctx.fail('push-raises:%s:!%s' % (kind, type(e).__name__), '%s raised %s while accumulating a 5001-digit integer' % (acclib.KINDS[kind], type(e).__name__), case)
+            continue
+        want = len(vals) if kind == 'counter' else (min(vals) if kind == 'min' else max(vals))
+        try:
+            same = int(np.asarray(got).item() if kind != 'counter' else got) == want
+        except Exception:  # noqa
+            same = False
+        if n != len(vals) or not same:
+            ctx.fail('batch-mismatch:%s:value' % kind, '%s of six 5001-digit integers is wrong (offset from 10**5000: %s, expected %s; n=%s)' % (
+                kind, 'n/a' if not same and kind == 'counter' else 'differs', want - base if kind != 'counter' else want, n), case)
 
 
 def replay(ctx, data):
     case = data['case']
+    if case.get('family') == 'hugeint':
+        huge_integer_cases(ctx)
+        return
+    if case.get('big_frames'):
+        big_frame_cases(ctx)
+        return
     if case.get('probe') == 'float':
         float_probe(ctx)
         return
